@@ -164,6 +164,27 @@ theorem adam_first_step_bounded (c : AdamCfg ℝ) (g : ℝ) (hlr : 0 < c.lr0)
   have : 0 ≤ Real.sqrt (1 - c.beta2) * |g| := by positivity
   nlinarith [mul_pos hlr he]
 
+/-- momentum never reverses a consistent direction: if every gradient of the history is ≥ 0 (and the velocity starts ≤ 0, e.g. at
+    rest), every SGD update is ≤ 0 — the weight only moves downhill — for every history length, with or without Nesterov. -/
+theorem sgd_consistent_sign (c : SgdCfg ℝ) (gs : List ℝ) (w v : ℝ) (hlr : 0 ≤ c.lr) (hmu : 0 ≤ c.momentum)
+    (hv : v ≤ 0) (hg : ∀ g ∈ gs, 0 ≤ g) :
+    (sgdRun c gs (w, v)).1 ≤ w ∧ (sgdRun c gs (w, v)).2 ≤ 0 := by
+  induction gs generalizing w v with
+  | nil => simp [sgdRun, hv]
+  | cons g gs ih =>
+    have hg0 : 0 ≤ g := hg g (by simp)
+    have hv' : (sgdStep c v g).1 ≤ 0 := by
+      simp only [sgdStep]
+      nlinarith [mul_nonneg hmu (neg_nonneg.mpr hv), mul_nonneg hlr hg0]
+    have hu : (sgdStep c v g).2 ≤ 0 := by
+      simp only [sgdStep] at hv' ⊢
+      split
+      · nlinarith [mul_nonneg hmu (neg_nonneg.mpr hv'), mul_nonneg hlr hg0]
+      · exact hv'
+    obtain ⟨a, b⟩ := ih (w + (sgdStep c v g).2) (sgdStep c v g).1 hv' (fun x hx => hg x (by simp [hx]))
+    simp only [sgdRun]
+    exact ⟨by linarith, b⟩
+
 /-- hypotheses of the theorems above hold at scikit-learn's defaults as GemClus uses them (non-vacuity). -/
 example : (0 : ℝ) < 1e-3 ∧ (0 : ℝ) ≤ 0.9 ∧ (0.9 : ℝ) < 1 ∧ (0 : ℝ) ≤ 0.999 ∧ (0.999 : ℝ) < 1 ∧ (0 : ℝ) < 1e-8 := by
   norm_num
